@@ -27,6 +27,7 @@ THEOREMS = {
             "JP.C01.decodeRoot_spec", "JP.C01.apply_refines", "JP.C01.move_eq_remove_add", "JP.C01.test_absent_is_null",
             "JP.C01.write_then_read", "JP.C01.null_roundtrip", "JP.C01.applyOp_keeps", "JP.C01.copy_isolated",
             "JP.C01.engine_null_roundtrip", "JP.C01.engine_test_absent_is_null", "JP.C01.engine_copy_isolated",
+            "JP.C01.novalue_refines", "JP.C01.spec_novalue",
         ],
     },
     "C02": {
@@ -364,5 +365,5 @@ ASSUME = {
     "C01": ["member names are duplicate-free (RFC 8259 leaves repeated names open)"],
     "C02": ["member names are duplicate-free; document is not null"],
     "C06": ["numbers compared by literal text"],
-    "C18": ["the statement's own domain: see DESIGN 13.4"],
+    "C18": ["the statement's own domain: see DESIGN 13.4", "Legacy.strictOp: the path of every remove/move/copy and the from of every move parse as RFC 6901 pointers"],
 }
